@@ -26,7 +26,7 @@ RULE = (
     "2-5 disciplines wired forward into several strongly connected components, weakly coupled pre/post disciplines, "
     "self-coupled disciplines, optional tanh terms, optional non-coupling outputs, drawn list order and names; "
     "max-norm contraction factor q in {0.05,0.1,0.2,0.3} by construction), input and start values on a half-integer "
-    "grid, and 1-3 MDA configurations: class in {Jacobi, GaussSeidel, NewtonRaphson, QuasiNewton, GSNewton, Sequential "
+    "grid (or start values = exact solution rounded to 1/64, one case in three), and 1-3 MDA configurations: class in {Jacobi, GaussSeidel, NewtonRaphson, QuasiNewton, GSNewton, Sequential "
     "of two solvers, MDAChain with each inner MDA}, every AccelerationMethod, over-relaxation in {0.6,0.8,1,1.2,1.3}, "
     "tolerance in {1e-6,1e-10,1e-13}, every ResidualScaling, warm start with a second execution at perturbed inputs, "
     "a permutation of the discipline list, Newton linear solver / matrix type, SciPy root method with or without "
@@ -52,6 +52,8 @@ ASSUMPTIONS = [
     "on a tiny non-zero coupling component because of MINPACK's relative finite-difference step, is inconclusive "
     "(counted in classes 'inconclusive:*'), not a violation",
     "Newton linear solvers are DEFAULT (direct), GMRES and LGMRES: BiCGStab-type breakdowns are a property of those methods",
+    "while the known finding C06-F8 is open, MDAQuasiNewton configurations are held to oracles (1)-(3) on the couplings "
+    "inside cycles only (the other outputs are those of SciPy's last trial point)",
     "parallel execution (n_processes > 1) belongs to C13",
 ]
 
@@ -307,13 +309,36 @@ def execute_and_check(ctx, mda, model, cfg, x, sol, e0, label):
 
 def is_subresidual_scaling_without_resolved_variables(cfg: dict, info: dict) -> bool:
     """Ledger class: INITIAL_SUBRESIDUAL_NORM / INITIAL_RESIDUAL_COMPONENT on a top-level Gauss-Seidel MDA of a system without any cycle."""
-    return (cfg["scaling"] in ("initial_subresidual_norm", "initial_residual_component") and cfg["kind"] in ("solver", "sequential")
+    return (cfg["scaling"] in ("initial_subresidual_norm", "initial_residual_component", "scaled_initial_residual_component") and cfg["kind"] in ("solver", "sequential")
             and any(s["cls"] == "MDAGaussSeidel" for s in solver_parts(cfg)) and info["n_scc_ge2"] == 0 and info["n_self_coupled"] == 0)
 
 
 def quasi_newton_budget_exhausted(mda, cfg: dict) -> bool:
     """A SciPy root method used all its evaluations / iterations (SciPy reports a failure that gemseo only logs)."""
     return any(type(sub).__name__ == "MDAQuasiNewton" and int(getattr(sub, "current_iter", 0)) >= cfg["budget"] for sub in _solver_mdas(mda))
+
+
+def is_gauss_seidel_with_stale_weak_outputs(cfg: dict, model: CoupledSystem, order: list) -> bool:
+    """Ledger class: a top-level Gauss-Seidel MDA in whose list order a weakly coupled discipline lags >= 2 sweeps.
+
+    lag(d) = max over the producers p of the inputs of d of lag(p) (+1 when p is listed after d); disciplines in a
+    cycle have lag 0 (their couplings are what the stop criterion watches).
+    """
+    if cfg["kind"] not in ("solver", "sequential") or not any(s["cls"] == "MDAGaussSeidel" for s in solver_parts(cfg)):
+        return False
+    succ = model.graph()
+    in_cycle = {i for c in model.sccs() if len(c) > 1 or c[0] in succ[c[0]] for i in c}
+    pos = {d: k for k, d in enumerate(order)}
+    lag = {i: 0 for i in in_cycle}
+
+    def lag_of(d):
+        if d not in lag:
+            lag[d] = 0  # weak disciplines form a DAG: no infinite recursion
+            lag[d] = max((lag_of(model.producer[n]) + (pos[model.producer[n]] > pos[d])
+                          for n in model.inputs_of[d] if n in model.producer), default=0)
+        return lag[d]
+
+    return any(lag_of(d) >= 2 for d in range(len(succ)) if d not in in_cycle)
 
 
 NONLIN_SOLVE_METHODS = {"broyden1", "broyden2", "anderson", "krylov"}
@@ -382,17 +407,28 @@ def check_returned(ctx, model, cfg, x, out, sol, e0, label):
         ctx.check(bool(np.all(np.isfinite(arr.astype(float)))), "fixed_point",
                   f"{label}: output {name} is not finite: {arr!r}", cfg=cfg)
         data[name] = arr.astype(float)
+    # known finding C06-F8: MDAQuasiNewton keeps the non-resolved outputs of its last trial point; while it is
+    # open, quasi-Newton configurations are only held to the outputs that are couplings inside a cycle
+    names = model.out_names
+    if uses_quasi_newton(cfg) and ctx.known("quasi_newton_outputs_of_last_trial_point", count=False):
+        succ = model.graph()
+        names = []
+        for comp in model.sccs():
+            if len(comp) > 1 or comp[0] in succ[comp[0]]:
+                ins = {n for i in comp for n in model.inputs_of[i]}
+                names += [n for i in comp for n in model.outputs_of[i] if n in ins]
+        ctx.cls("quasi_newton_checked_on_strong_couplings_only")
     # (1) fixed point: every discipline re-executed on the returned data reproduces it.
     # a discipline output was computed from coupling inputs that moved by at most rho since, and every
     # discipline is q-Lipschitz in the max norm w.r.t. its coupling inputs: the defect is at most q * rho
     # (a factor 2 is granted; MDAQuasiNewton has its own, looser rho)
     tau = (2.0 * rho if uses_quasi_newton(cfg) else 2.0 * model.q * rho) + rounding
-    defect, where = model.defect(data)
+    defect, where = model.defect(data, names)
     ctx.check(defect <= tau, "fixed_point",
               f"{label}: re-executing {where} on the returned data changes it by {defect:.3e} > {tau:.3e} "
               f"(tolerance {cfg['tol']}, scaling {cfg['scaling']})", cfg=cfg, defect=defect, bound=tau)
     # (2) exact solution: ||v - v*|| <= defect bound / (1 - q)
-    err = max((float(np.max(np.abs(data[n] - sol[n]), initial=0.0)) for n in model.out_names), default=0.0)
+    err = max((float(np.max(np.abs(data[n] - sol[n]), initial=0.0)) for n in names), default=0.0)
     bound = tau / (1.0 - model.q) + rounding
     ctx.check(err <= bound, "exact_solution", f"{label}: distance to the exact solution {err:.3e} > {bound:.3e}", cfg=cfg, error=err, bound=bound)
     return data, bound, defect / tau if tau > 0 else 0.0
@@ -464,6 +500,8 @@ def _case_mda(p, ctx):
         if is_quasi_newton_without_strong_couplings(cfg, info) and ctx.known("quasi_newton_without_strong_couplings"):
             continue
         if is_subresidual_scaling_without_resolved_variables(cfg, info) and ctx.known("subresidual_scaling_without_resolved_variables"):
+            continue
+        if is_gauss_seidel_with_stale_weak_outputs(cfg, model, order) and ctx.known("gauss_seidel_stale_weakly_coupled_outputs"):
             continue
         if is_quasi_newton_zero_solution(cfg, model, [sol1, sol2] if cfg["twice"] else [sol1]) and ctx.known("quasi_newton_zero_solution"):
             continue
